@@ -5,6 +5,7 @@ import (
 	"bufio"
 	"bytes"
 	"context"
+	"errors"
 	"fmt"
 	"io"
 	"log"
@@ -80,7 +81,7 @@ type respScript struct {
 	early int
 }
 
-var faults = []string{"refused", "close-before", "rst-before", "partial-head", "garbage-head", "invalid-status", "body-close", "body-rst", "never-answer", "client-cancel"}
+var faults = []string{"refused", "dial-error-without-address", "name-not-resolved", "close-before", "rst-before", "partial-head", "garbage-head", "invalid-status", "body-close", "body-rst", "never-answer", "client-cancel"}
 
 func genResp(t *rapid.T) *respScript {
 	s := &respScript{}
@@ -271,6 +272,16 @@ func exchange(fatalf func(string, ...any), s *respScript, method string) {
 	if s.fault == "never-answer" {
 		tr.ResponseHeaderTimeout = 60 * time.Millisecond
 	}
+	switch s.fault { // the backend cannot be reached, and the error names no peer address
+	case "dial-error-without-address":
+		tr.DialContext = func(context.Context, string, string) (net.Conn, error) {
+			return nil, &net.OpError{Op: "dial", Net: "tcp", Err: errors.New("network is unreachable")}
+		}
+	case "name-not-resolved":
+		tr.DialContext = func(_ context.Context, _, addr string) (net.Conn, error) {
+			return nil, &net.OpError{Op: "dial", Net: "tcp", Err: &net.DNSError{Err: "no such host", Name: addr, IsNotFound: true}}
+		}
+	}
 	defer tr.CloseIdleConnections()
 	fwd := forward.New(false)
 	if !(s.defaultTransport && s.fault == "") {
@@ -363,7 +374,7 @@ func exchange(fatalf func(string, ...any), s *respScript, method string) {
 		if method != "HEAD" && !bytes.Equal(rec.Body(), s.body) {
 			bad("client got %d body bytes, backend sent %d (equal prefix %d)", len(rec.Body()), len(s.body), commonPrefix(rec.Body(), s.body))
 		}
-	case "refused", "close-before", "rst-before":
+	case "refused", "close-before", "rst-before", "dial-error-without-address", "name-not-resolved":
 		if rec.Status() != http.StatusBadGateway {
 			bad("backend unreachable / failed before responding: client got %d, want 502", rec.Status())
 		}
